@@ -95,6 +95,19 @@ def run(ctx):
     sf = [n for n in g.nodes if n.kind == 'stmt' and isinstance(n.stmt, ast.Assign) and is_self_attr(n.stmt.targets[0], '_data_store_session_factory')]
     ctx.check(len(ca) == 1 and len(sf) == 1 and g.dominates(ca[0][0], sf[0]), 'C09.R3', 'KmipEngine.__init__|schema-before-sessions', m.site(init, init),
               'create_all() precedes the session factory', 'the schema is not created before the session factory is built')
+    # the session factory is bound to the Engine (one pooled connection and one transaction per session), not to a long-lived Connection
+    sfn = sf[0].stmt if sf else None
+    okb = False
+    if sfn is not None and isinstance(sfn.value, ast.Call):
+        bind = next((k.value for k in sfn.value.keywords if k.arg == 'bind'), sfn.value.args[0] if sfn.value.args else None)
+        if is_self_attr(bind):
+            stores = [a for a in walk_local(init) if isinstance(a, ast.Assign) and any(is_self_attr(tg, bind.attr) for tg in a.targets)]
+            okb = len(stores) == 1 and isinstance(stores[0].value, ast.Call) and (call_name(stores[0].value) or '').split('.')[-1] == 'create_engine'
+    conns = [c for fn_ in m.methods.values() for c in walk_local(fn_) if isinstance(c, ast.Call) and isinstance(c.func, ast.Attribute) and c.func.attr in ('connect', 'raw_connection', 'begin')
+             and ('_data_store' in U(c.func.value))]
+    ctx.check(okb and not conns, 'C09.R3', 'KmipEngine.__init__|sessions-bound-to-engine', m.site(init, init),
+              'sessionmaker(bind=<the create_engine result>); the engine never opens connections of its own',
+              'the session factory is not bound to the create_engine result, or the engine opens its own connections (%s): a Session bound to a Connection that is already in a transaction only flushes on commit() - nothing reaches the file' % [U(c)[:50] for c in conns])
     pb = m.method('_process_batch')
     withs = [n for n in walk_local(pb) if isinstance(n, ast.With)]
     okw = len(withs) == 1 and call_name(withs[0].items[0].context_expr) == 'self._data_store_session_factory' and \
